@@ -201,6 +201,32 @@ def run(world, rep, tier, only=None):
         any("ibody_count" in T.field_names(a) for t, a in control_lits(rm, n)) for n in dec),
         "ibody_count-- only when the removed entry was in the inode body")
 
+    # ------------------------------------------------------------------ C15.g the old value inode goes last
+    # Replacing an attribute whose value lives in an EA inode: everything that can fail (allocating the copy of the
+    # value, creating the new value inode) comes before the reference of the old value inode is dropped.  In the other
+    # order a failed replace has already freed what the untouched entry still points at.
+    xu = ea["xattr_update_entry"] if "xattr_update_entry" in ea else None
+    if xu is None:
+        raise Broken("xattr_update_entry vanished")
+    decs = calls_to(xu, "xattr_inode_dec_ref")
+    rep.floor("C15.g release of the old value inode in xattr_update_entry", len(decs), 1)
+    for i, d_ in enumerate(decs):
+        after = xu.reach(xu.after(d_))
+        fallible = []
+        for c in xu.call_nodes():
+            if c is d_ or c not in after:
+                continue
+            cid = c.ev["x"].get("id")
+            used = any(xu.literal(b) and (any(cc.get("id") == cid for cc in T.calls(xu.literal(b)[0])) or
+                                          any(T.path(s_.ev["lhs"]) in T.vars_in(xu.literal(b)[0]) for s_ in xu.events("S")
+                                              if isinstance(s_.ev.get("rhs"), dict) and any(cc.get("id") == cid for cc in T.calls(s_.ev["rhs"]))
+                                              and s_ in after and xu.block_end(b) in xu.reach(xu.after(s_))))
+                       for b in xu.blocks if xu.block_end(b) in after)
+            if used:
+                fallible.append(c)
+        rep.ob("C15.g", site(xu, "nothing that can fail follows the release of the old value inode#%d" % i), not fallible,
+               "calls after xattr_inode_dec_ref() whose result is tested: %s" % [(c.line, T.call_names(c.ev["x"])[0]) for c in fallible])
+
     # ------------------------------------------------------------------ C15.f one block, one charge
     # prep_ea_block_for_write() gives the inode a block of its own: a first block is charged to i_blocks, a copy made
     # of a shared block replaces a block the inode was already charged for
